@@ -565,6 +565,47 @@ def oracle_extreme_fraction(nrng, problems, stats, k):
         stats["extreme_fraction_checks"] += 1
 
 
+def oracle_tails(nrng, problems, stats, k):
+    """wet values far in the tails of the amounts distribution (tail probability 1e-10 … 3e-15, cdf still strictly inside
+    (0,1) in float64) must round-trip as well as the distribution itself allows: ppf(cdf(x)) is ill-conditioned there, so the
+    tolerance is derived per element from the real distribution — a few ulps of the cdf value divided by the density,
+    inflated by 1/(1 - p0) for the hurdle mixture — and from what scipy's own gamma.ppf(gamma.cdf(x)) achieves."""
+    from ibicus.utils import _math_utils as M
+
+    n = int(nrng.integers(30, 120))
+    data, shape, scale = gen_gamma_sample(nrng, n)
+    thr = float(nrng.choice([0.1, 0.05, 0.5])) * (1.0 if scale >= 0.05 else scale)
+    eps = 2.0 ** -52
+    g = scipy.stats.gamma
+    for kind, model in _models(M, thr):
+        np.random.seed(k)
+        fit = (shape, 0, scale) if kind.startswith("censored") else quiet(model.fit, data)
+        gf = fit[1] if kind.startswith("hurdle") else fit
+        p0 = fit[0] if kind.startswith("hurdle") else 0.0
+        sf = np.array([1e-9, 1e-10, 3e-11, 1e-11, 1e-12, 1e-13, 1e-14, 3e-15])
+        xt = np.concatenate([g.isf(sf, *gf), g.ppf(sf, *gf)])
+        xt = xt[np.isfinite(xt) & (xt > (thr * (1 + 1e-6) if kind.startswith("censored") else 0))]
+        F = g.cdf(xt, *gf)
+        ok = (F > 0) & (F < 1 - 4 * eps)
+        xt, F = xt[ok], F[ok]
+        if xt.size == 0:
+            continue
+        cdf = np.asarray(quiet(model.cdf, xt, *fit), dtype=float)
+        back = np.asarray(quiet(model.ppf, cdf, *fit), dtype=float)
+        ref = g.ppf(F, *gf)  # what scipy itself achieves
+        pdf = g.pdf(xt, *gf)
+        tol = 1e-9 * xt + 8 * np.abs(ref - xt) + 32 * eps * np.maximum(F, p0 + (1 - p0) * F) / ((1 - p0) * pdf)
+        stats["tail_values_checked"] += int(xt.size)
+        badm = ~(np.abs(back - xt) <= tol)
+        if badm.any():
+            i = int(np.argmax(np.where(badm, np.abs(back - xt) / tol, 0)))
+            problems.append((f"{kind}: a wet value in the far tail does not round-trip: x = {xt[i]!r} (tail probability {min(F[i], 1 - F[i]):.3g}) comes back as {back[i]!r}; "
+                             f"scipy's own gamma.ppf(gamma.cdf(x)) gives {ref[i]!r}, allowed deviation {tol[i]:.3g}",
+                             {"x": float(xt[i]), "fit": [float(v) for v in gf], "p0": float(p0), "threshold": thr, "numpy_seed_of_case": k, "generator": "tails"},
+                             {"model": kind, "law": "wet_roundtrip", "region": "far tail"}))
+    stats["tail_cases"] += 1
+
+
 def _models(M, thr):
     return [("hurdle", M.gen_PrecipitationHurdleModel(cdf_randomization=True)),
             ("hurdle_norand", M.gen_PrecipitationHurdleModel(cdf_randomization=False)),
@@ -719,7 +760,7 @@ def run(tier, res, force_search=False):
                 "model type, options, family loc/scale, threshold) from one PRNG (VERIF_SEED); oracle cases = zero-inflated gamma samples (shape 0.4..5, scale 1e-9..40 "
                 "(mm/day and kg m-2 s-1), dry fraction 0.05..0.95, n 20..120), each also as float32; plus long series (n 2000..10950) with a dry fraction < 0.1 % or > 99.9 %, and samples with wet amounts >= 1 "
                 "run with fit_kwds None / floc=0 / floc=c>0; plus cdf/ppf on sub-vectors (only wet, only zeros, single values, permutations, repeats, chunks) "
-                "of small samples and of samples with 20001 / 21900 / 25000 values, for all five model configurations; "
+                "of small samples and of samples with 20001 / 21900 / 25000 values, for all five model configurations; plus wet values in the far tails (tail probability 1e-9..3e-15) with a per-element conditioning tolerance; "
                 "distinct = distinct (model, n, #dry, options) classes; every case is non-trivial (both dry and wet values)")
     res.trusted = C.BASE_TRUSTED + [
         "the amounts distribution is a parameter: theorems hold for every family satisfying Lemmas.Precip.AmountLaws (proved for the rational test double, assumed for scipy's gamma and other rv_continuous families)",
@@ -761,7 +802,8 @@ def run(tier, res, force_search=False):
     large = functools.partial(oracle_vectors, large=True)
     large.__name__ = "oracle_vectors_large"
     for k in range(n_ext):
-        fns = [(oracle_extreme_fraction, 7000000), (oracle_fit_kwds, 9000000), (oracle_vectors, 11000000), (oracle_vectors, 12000000)]
+        fns = [(oracle_extreme_fraction, 7000000), (oracle_fit_kwds, 9000000), (oracle_vectors, 11000000), (oracle_vectors, 12000000),
+               (oracle_tails, 14000000), (oracle_tails, 15000000)]
         if k < (2 if tier == "quick" else 8):
             fns.append((large, 13000000))
         for fn, off in fns:
@@ -798,7 +840,7 @@ def replay(data):
     k = int(fi["numpy_seed_of_case"])
     import functools
 
-    gen = {"vectors": oracle_vectors, "oracle_vectors": oracle_vectors, "vectors_large": functools.partial(oracle_vectors, large=True),
+    gen = {"tails": oracle_tails, "oracle_tails": oracle_tails, "vectors": oracle_vectors, "oracle_vectors": oracle_vectors, "vectors_large": functools.partial(oracle_vectors, large=True),
            "oracle_vectors_large": functools.partial(oracle_vectors, large=True),
            "extreme_fraction": oracle_extreme_fraction, "oracle_extreme_fraction": oracle_extreme_fraction,
            "fit_kwds": oracle_fit_kwds, "oracle_fit_kwds": oracle_fit_kwds}.get(fi.get("generator"), oracle)
